@@ -235,6 +235,8 @@ def base_catalog():
     DS4 = S("DS4", "a", U8, "b", U8, "c", U32, "s", StrT(L16), sized=False, default=True)
     DS5 = S("DS5", "a", BOOL, "b", U16, "f", FlexT(U64, L16), sized=False, default=True)
     c += [DS3, DS4, DS5]
+    # zero-sized items: every slot is a bare header (the room tests of push / FromIterator at exactly one header)
+    c += [FlexT(UNIT, L8), FlexT(UNIT, L16)]
     # a fixed set of generated definitions widens the shapes (the thorough tier adds seeded ones on top)
     c += random_catalog(20260926, 40, prefix="G")
     return c
